@@ -51,6 +51,7 @@ func prefix(c *evid.Case, env *qsim.Env, seed int64) (*qsim.Cluster, qsim.Config
 		cfg.N = 7
 	}
 	cfg.MaxSteps = rng.Intn(90 * cfg.N) // any prefix length, so intermediate states are sampled too
+	cfg.RunnerCompaction = rng.Intn(3) == 0 // a third of the cases: instances compacted as the real node's runner does
 	directed := rng.Intn(5) == 0
 	if directed {
 		// directed prefix "split prepare": all f Byzantine operators active, distinct start values
@@ -59,10 +60,17 @@ func prefix(c *evid.Case, env *qsim.Env, seed int64) (*qsim.Cluster, qsim.Config
 		cfg.ByzIDs = rng.Perm(cfg.N)[:f]
 		cfg.MaxSteps = rng.Intn(20) // a few random steps after the script
 	}
+	decidedFew := !directed && rng.Intn(6) == 0
+	if decidedFew {
+		cfg.MaxSteps = rng.Intn(10)
+	}
 	cl := qsim.NewCluster(env, rng, cfg)
 	cl.StartAll()
 	if directed {
 		qrun.SplitPrepare(cl, nil)
+	}
+	if decidedFew {
+		decidedFewPrefix(cl)
 	}
 	for cl.Step() {
 	}
@@ -229,6 +237,10 @@ func runContinuation(c *evid.Case) {
 			sig := fmt.Sprintf("N=%d/prepared-values=%d", cfg.N, len(pv))
 			if len(pv) >= 2 {
 				sig = "correct-operators-prepared-on-distinct-values"
+			} else if cfg.RunnerCompaction && decidedAtCut > 0 && undecidedAtCut > cl.F {
+				// more than f operators are undecided (enough for a partial quorum), but the decided ones compact their instance on
+				// every round-change (the container is cleared each time) and therefore never join
+				sig = "runner-compaction/decided-operators-never-join-the-round-change"
 			} else if undecidedAtCut > 0 && undecidedAtCut <= cl.F && decidedAtCut > 0 {
 				// fewer undecided correct operators than a partial quorum (f+1), everybody else decided, the decided messages lost
 				sig = "undecided-correct-operators-fewer-than-partial-quorum-and-decided-messages-lost"
@@ -360,4 +372,44 @@ func runTimeout(c *evid.Case) {
 			// the fresh broadcasts stay in the pool; nothing else is delivered: pure timeout walk
 		}
 	}
+}
+
+// decidedFewPrefix is a directed prefix: the round-1 proposal and prepares reach every correct operator, the commits reach
+// only one of them (it decides), everything else - including its decided message - is lost. The other correct operators
+// (at least f+1 when no more than f-... operators are faulty) are prepared but undecided: they need the decided operator to
+// join their round change through the partial-quorum rule.
+func decidedFewPrefix(cl *qsim.Cluster) {
+	n, h := cl.Cfg.N, cl.Cfg.Height
+	hon, byz := cl.Honest(), cl.ByzNodes()
+	isT := func(t specqbft.MessageType) func(f *qsim.Flight) bool {
+		return func(f *qsim.Flight) bool { return f.Msg.Message.MsgType == t && len(f.Msg.Signers) == 1 }
+	}
+	if l1 := cl.Nodes[qsim.Leader(n, h, 1)-1]; l1.Byz && !l1.Silent {
+		cl.ByzSendTo(l1, cl.MkProposal(l1, 1, cl.Values[0], nil, nil), "proposal", hon)
+	}
+	cl.DeliverWhere(isT(specqbft.ProposalMsgType), nil)
+	var v []byte
+	for _, x := range hon {
+		if st := x.Inst(); st != nil && st.ProposalAcceptedForCurrentRound != nil {
+			v = st.ProposalAcceptedForCurrentRound.FullData
+		}
+	}
+	if v == nil {
+		return
+	}
+	for _, z := range byz {
+		if !z.Silent {
+			cl.ByzSendTo(z, cl.MkSimple(z, specqbft.PrepareMsgType, 1, qsim.Root(v)), "prepare", hon)
+		}
+	}
+	cl.DeliverWhere(isT(specqbft.PrepareMsgType), nil)
+	d := hon[cl.Rng.Intn(len(hon))]
+	for _, z := range byz {
+		if !z.Silent {
+			cl.ByzSendTo(z, cl.MkSimple(z, specqbft.CommitMsgType, 1, qsim.Root(v)), "commit", []*qsim.Node{d})
+		}
+	}
+	cl.DeliverWhere(func(f *qsim.Flight) bool { return f.To == d.ID && isT(specqbft.CommitMsgType)(f) }, nil)
+	cl.DropWhere(func(*qsim.Flight) bool { return true })
+	cl.Act("decided-few prefix: operator %d decided, the others prepared", d.ID)
 }
